@@ -262,7 +262,7 @@ PROPS["C04"] = {
                      "unit typed_de: the visitor is an arbitrary program — it enters as a trait with deterministic spec callbacks (on_bool, on_unit, on_none, on_str, on_u64 / on_i64 / on_f64) and, for visit_some / visit_seq / visit_map, as an opaque call that preserves the parser invariant (prophetic mut_ref_future for the access objects); declared substitutions: `self` -> `&mut self` (the trait impl is re-hosted on an inherent impl), `self.peek_invalid_type(peek, &visitor)` -> `self.peek_invalid_type_v(peek)` (the `&dyn Expected` only feeds the message), `let _ = DepthGuard::guard(self);` -> `self.depth_guard_tick()` (the guard is dropped at once: known finding F1a), `V: de::Visitor` -> the stand-in trait",
                      "the statement's oracle (serde_json) is not executed: the reference behaviour is written from the serde data model as serde_json implements it, per entry point",
                      "NOT under contract: the ten integer / float entry points generated by impl_deserialize_number (they go through deserialize_number -> visit_number, whose dispatch is proved; range conversion to the target width is serde's visitor, T4), deserialize_i128 / u128 (scan_integer128 + std parse), deserialize_bytes, the content side of VariantAccess (unit / newtype / tuple / struct variant: one-line delegations), MapKey (quoted numbers / bools as keys), derive output; `visitor.visit_enum(..)` is split by a declared substitution into visit_enum_tagged / visit_enum_unit (same callback, two access types)"],
-    "level_text": "Verus proof of per-type entry points of the serde Deserializer: deserialize_bool accepts exactly `true` / `false` and hands the visitor that boolean; deserialize_unit exactly `null`; deserialize_option maps a complete `null` to None and starts the inner deserializer at the value otherwise; deserialize_str accepts only a string literal and hands out its decoded text, borrowed exactly when it has no escape; deserialize_ignored_any accepts exactly one well-formed value; deserialize_seq / deserialize_map / deserialize_struct accept only `[` / `{`, start the visitor on a fresh access object just after the bracket and require the closing bracket after what it consumed; deserialize_enum accepts `"Variant"` or `{"Variant": value}` (closing brace required; VariantAccess::variant_seed requires the colon after the variant name); deserialize_any dispatches on the first byte (literals, string borrowed iff no escape, number, containers) and rejects anything else; visit_number dispatches each number class to its callback with the same value; plus (shared with C02 / C09 / C07) the comma-colon access machine, the borrow-or-copy string decoder and the exact integer parser",
+    "level_text": "Verus proof of per-type entry points of the serde Deserializer: deserialize_bool accepts exactly `true` / `false` and hands the visitor that boolean; deserialize_unit exactly `null`; deserialize_option maps a complete `null` to None and starts the inner deserializer at the value otherwise; deserialize_str accepts only a string literal and hands out its decoded text, borrowed exactly when it has no escape; deserialize_ignored_any accepts exactly one well-formed value; deserialize_seq / deserialize_map / deserialize_struct accept only `[` / `{`, start the visitor on a fresh access object just after the bracket and require the closing bracket after what it consumed; deserialize_enum accepts a bare variant name or the externally tagged form {Variant: value} (closing brace required; VariantAccess::variant_seed requires the colon after the variant name); deserialize_any dispatches on the first byte (literals, string borrowed iff no escape, number, containers) and rejects anything else; visit_number dispatches each number class to its callback with the same value; plus (shared with C02 / C09 / C07) the comma-colon access machine, the borrow-or-copy string decoder and the exact integer parser",
     "level_note": "a part of the statement: the listed entry points; agreement with serde_json for every Deserialize type is not decided (programs)",
     "technique": TECH_V,
     "explanation": "deserialize_bool: Ok ==> (text is `true` and res == visitor.on_bool(true)) or (`false` ...); deserialize_str: res == visitor.on_str(decoded(text), borrowed == no escape)",
